@@ -40,12 +40,12 @@ RULE = 'one task per (shape, flag set, criteria sequence); non-trivial = a solve
 def BOUNDS(tier):
     return ('shapes: corner set + seeded random shapes with ns<=4, np<=3, nl<=3 (quick ~%d, thorough ~%d), 2- and 3-agent, '
             'one/two-sided; flag sets: all of -twopl/-pc/-stab admissible for the shape; criteria: none, each single '
-            'criterion (default args + one non-default), seeded pairs/triples; numerics symbolic >= 0 unbounded') % (40, 300)
+            'criterion (default args + one non-default), seeded pairs/triples; numerics symbolic >= 0 unbounded') % (100, 330)
 
 
 def tasks(tier, seed):
     rng = random.Random(seed + 101)
-    shs = shapes.shape_set(tier, seed, quick_n=36, thorough_n=300)
+    shs = shapes.shape_set(tier, seed, quick_n=90, thorough_n=300)
     out = []
     extra = [('gen', [2]), ('gre', [1]), ('mincost', [2, 3]), ('minsqcost', [1, 2]), ('mincostlsb', [2, 3])]
     for I in shs:
